@@ -22,5 +22,5 @@ known=$(grep "^--- FAIL" $W/suite.log | grep -c "TestEOF\|TestHasEOF\|TestRead "
 echo "demo without patch: rc=$rc_without (want 0); with patch: rc=$rc_with (want !=0); suite FAIL lines with patch: $fails"
 grep "^--- FAIL" $W/suite.log | head -5
 git -C /repo apply $D/patch.diff || { echo "patch does not apply to /repo"; exit 2; }
-( cd /verif && /verif/bin/hvc check $P 2>&1 | grep -v conda | grep "^VIOLATION\|^hvc: property\|replay:" | cut -c1-300 )
+( cd /verif && HVC_NO_EVIDENCE=1 /verif/bin/hvc check $P 2>&1 | grep -v conda | grep "^VIOLATION\|^hvc: property\|replay:" | cut -c1-300 )
 git -C /repo checkout -- .
